@@ -1,10 +1,85 @@
-(* C07 — property theorems only.  Each is closed by `exact <lemma>` and followed by Print Assumptions. *)
-From Coq Require Import List NArith Bool.
+(* C07 — property theorems only.  Each is closed by `exact <lemma>` and followed by Print Assumptions.
+
+   Vocabulary (Model.v / Spec.v):
+     run ord sel_eqb ops      the InheritIndex model after the history `ops` (UpdateLabels, DeleteLabels,
+                              UpdateParentLabels, DeleteParentLabels, UpdateSelector, DeleteSelector), where `ord` is the
+                              order in which every Go map/set iteration enumerates its elements and `sel_eqb` is
+                              Selector.Equal;
+     by_sel / by_item         labelIdsBySelId / selIdsByLabelId;  log = every OnMatchStarted/Stopped callback so far;
+     sp_run ops, want         the plain data the history describes and "selector s evaluates to true on item i's
+                              effective labels (own labels, then the parents' labels in order)";
+     restrictions a           Selector.LabelRestrictions();  satisfies R L = the label map L meets every restriction. *)
+From Coq Require Import List NArith Bool Permutation.
 From Verif.Common Require Import Labels.
-From Verif.C07 Require Import Model Spec Proofs.
+From Verif.C07 Require Import Model Spec MapLemmas AltProofs IdxProofs LiveProofs StepProofs RestrProofs Proofs.
 Import ListNotations.
 Open Scope N_scope.
 
-Theorem c07_ast_eqb_sound : forall a b, ast_eqb a b = true -> a = b.
-Proof. exact ast_eqb_eq. Qed.
+(* After ANY history, under ANY map iteration orders, both match maps contain (selector,item) exactly when the
+   selector evaluates to true on the item's effective labels. *)
+Theorem c07_index_exact :
+  forall (ord : nat -> list N -> list N) (sel_eqb : ast -> ast -> bool),
+  (forall t l, Permutation (ord t l) l) ->
+  (forall a b, sel_eqb a b = true -> forall L, eval a L = eval b L) ->
+  forall ops s i,
+    let x := run ord sel_eqb ops in
+    rel_mem s i (by_sel x) = want (sp_run ops) s i /\ rel_mem i s (by_item x) = want (sp_run ops) s i.
+Proof. exact index_exact_perm. Qed.
+Print Assumptions c07_index_exact.
+
+(* Per (selector,item) the callback stream is start, stop, start, ... ("(start stop)* possibly ending in start":
+   never two starts, never a stop without a start), and the pair is in the match map exactly when its stream
+   currently ends with a start.  No assumption on `ord` or `sel_eqb` at all. *)
+Theorem c07_alternation :
+  forall ord sel_eqb ops s i,
+    let x := run ord sel_eqb ops in
+    alternating true (proj s i (log x))
+    /\ (rel_mem s i (by_sel x) = true <-> exists ks, proj s i (log x) = ks ++ [true]).
+Proof. exact alternation. Qed.
+Print Assumptions c07_alternation.
+
+(* Pruning by label restrictions never excludes a true match: whenever the selector evaluates to true on a label
+   map, the map satisfies the selector's LabelRestrictions (every node type; And = intersection, Or = union). *)
+Theorem c07_restrictions_sound : forall a L, eval a L = true -> satisfies (restrictions a) L.
+Proof. exact restrictions_sound. Qed.
+Print Assumptions c07_restrictions_sound.
+
+(* The abstraction "items name their parents by id" is sound: a parent named by a live item is never dropped from
+   the parent map and always lists that item as a child (so Go's *parentData pointers cannot go stale and
+   flushChildren reaches every item whose inherited labels change). *)
+Theorem c07_parents_live :
+  forall (ord : nat -> list N -> list N) (sel_eqb : ast -> ast -> bool),
+  (forall t l, Permutation (ord t l) l) ->
+  forall ops i it p,
+    let x := run ord sel_eqb ops in
+    nlookup i (items x) = Some it -> In p (it_parents it) ->
+    exists pa l, nlookup p (parents x) = Some pa /\ pa_items pa = Some l /\ memN i l = true.
+Proof. exact parents_live_perm. Qed.
+Print Assumptions c07_parents_live.
+
+(* The executable stand-in for Selector.Equal used in the correspondence run meets the hypothesis above. *)
+Theorem c07_ast_eqb_sound : forall a b, ast_eqb a b = true -> forall L, eval a L = eval b L.
+Proof. exact ast_eqb_sound. Qed.
 Print Assumptions c07_ast_eqb_sound.
+
+(* Non-vacuity: item 1 has own label a=x and inherits b=y from parent 7; selector 5 is  a == "x" && b == "y";
+   the match starts when the parent's labels arrive, stops when the item overrides b, restarts when the override
+   goes away, stops when the parent's labels are deleted. *)
+Example c07_example :
+  let a := [97] in let b := [98] in let vx := [120] in let vy := [121] in let vz := [122] in
+  let ops := [ OpUpdateSelector 5 (SAnd [SEq a vx; SEq b vy]);
+               OpUpdateLabels 1 [(a, vx)] [7];
+               OpUpdateParentLabels 7 (Some [(b, vy)]);
+               OpUpdateLabels 1 [(a, vx); (b, vz)] [7];
+               OpUpdateLabels 1 [(a, vx)] [7];
+               OpDeleteParentLabels 7 ] in
+  log (run ord_id ast_eqb ops) = [Start 5 1; Stop 5 1; Start 5 1; Stop 5 1]
+  /\ map (fun n => want (sp_run (firstn n ops)) 5 1) [2; 3; 4; 5; 6]%nat = [false; true; false; true; false].
+Proof. vm_compute. split; reflexivity. Qed.
+
+(* Non-vacuity of the restriction theorem: And intersects, Or unions. *)
+Example c07_restrictions_example :
+  restrictions (SAnd [SIn [97] [[120]; [121]]; SOr [SEq [97] [121]; SEq [97] [122]]; SNot (SHas [98])])
+  = [([98], {| r_present := false; r_absent := true; r_vals := None |});
+     ([97], {| r_present := true; r_absent := false; r_vals := Some [[121]] |})].
+Proof. vm_compute. reflexivity. Qed.
